@@ -231,6 +231,9 @@ struct Gen {
   Gen(World &ww, Src &ss) : w(ww), s(ss) {}
 
   int pick_live() { int live[NB], n = 0; for (int i = 0; i < NB; i++) if (w.slot[i]) live[n++] = i; if (!n) return -1; return live[s.below(n)]; }
+  int pick_where(bool (*pred)(const MB &)) { if (s.chance(1, 3)) { for (int i = NB - 1; i >= 0; i--) if (w.slot[i] && pred(*w.slot[i])) return i; } return pick_live(); }
+  static bool is_drains(const MB &b) { return b.drains; }
+  static bool front_sf(const MB &b) { return !b.sp.empty() && b.sp[0].sf; }
   int pick_other(int a) { int live[NB], n = 0; for (int i = 0; i < NB; i++) if (w.slot[i] && i != a) live[n++] = i; if (!n) return -1; return live[s.below(n)]; }
   size_t small_len() { switch (s.below(8)) { case 0: return 1; case 1: return 1 + s.below(8); case 2: return 1 + s.below(64); case 3: return 500 + s.below(30); case 4: return 1000 + s.below(100); case 5: return PG - 1 + s.below(3); case 6: return 1 + s.below(300); default: return 1 + s.below(2000); } }
   // a count relative to a buffer of L bytes whose first span has F bytes
@@ -341,7 +344,7 @@ struct Gen {
     S.handle = false; evbuffer_file_segment_free(S.h);
   }
   void op_add_seg() {
-    int bi = pick_live(); if (bi < 0) return; MB &b = *w.slot[bi];
+    int bi = pick_where(is_drains); if (bi < 0) return; MB &b = *w.slot[bi];
     int k = pick_seg_handle(); if (k < 0) { op_seg_new(); return; } Seg &S = w.segs[k];
     size_t fo = S.off;   // file offset of the segment start
     size_t off; long len; bool valid = true;
@@ -373,7 +376,7 @@ struct Gen {
     b.d.append(g_fdata[S.file], fo + off, eff); w.inst.push_back(Inst()); b.sp.push_back(Span{eff, S_SEG, k, -1, sf, (int)w.inst.size() - 1});
   }
   void op_add_file() {
-    int bi = pick_live(); if (bi < 0) return; MB &b = *w.slot[bi];
+    int bi = pick_where(is_drains); if (bi < 0) return; MB &b = *w.slot[bi];
     int k = new_seg_record(); if (k < 0) return; Seg &S = w.segs[k];
     S.anon = true; S.file = (int)s.below(NFILE); long len; draw_range(S.file, S.off, len, true);
     S.minus1 = len < 0; S.len = len < 0 ? FSIZE[S.file] - S.off : (size_t)len; S.flags = EVBUF_FS_CLOSE_ON_FREE;
@@ -497,7 +500,7 @@ struct Gen {
     b.sp.insert(b.sp.begin(), head); normalize(b.sp); w.n_pullup_copy++;
   }
   void op_write(bool atmost) {
-    int bi = pick_live(); if (bi < 0) return; MB &b = *w.slot[bi]; size_t L = b.d.size();
+    int bi = pick_where(front_sf); if (bi < 0) return; MB &b = *w.slot[bi]; size_t L = b.d.size();
     long howmuch = -1;
     if (atmost) howmuch = s.chance(1, 8) ? -1 : (long)rel_len(L, first_len(b));
     uint32_t scr = s.below(6);
@@ -544,6 +547,8 @@ struct Gen {
   void op_new() { for (int i = 0; i < NB; i++) if (!w.slot[i]) { new_buf(i); TR("buf%d = evbuffer_new()%s", i, i == 3 ? " + DRAINS_TO_FD" : ""); return; } }
 
   void step(uint32_t op) {
+    size_t total = 0; for (int i = 0; i < NB; i++) if (w.slot[i]) total += w.slot[i]->d.size();
+    if (total == 0 && op >= 19 && op <= 41) op = 1 + op % 16;   // nothing to move or read yet: add something instead
     switch (op) {
       case 1: case 2: op_add_plain(false); break;
       case 3: op_add_plain(true); break;
